@@ -20,7 +20,7 @@ Definition X := list (option Z).
 Definition S := (Z * list Z)%type.
 Definition E := (bool * S * nat)%type.
 Definition D := (Z * option nat)%type.
-Definition O := (S * P * list E * Z)%type.
+Definition O := (S * P * list E * D)%type.
 
 Fixpoint assign1 (x : X) (p : P) : P :=
   match x, p with
@@ -31,7 +31,7 @@ Definition solve1 (p : P) : S := (0, p).
 Definition devsol (s : S) : S := (1, snd s).
 Definition expand (b : bool) (s : S) (k : nat) : E := (b, s, k).
 Definition fwd_of (d : D) : option nat := snd d.
-Definition kf (s : S) (p : P) (ex : list E) (d : D) : O := (s, p, ex, fst d).
+Definition kf (s : S) (p : P) (ex : list E) (d : D) : O := (s, p, ex, d).
 
 Notation op := (KalmanSession.op X D).
 Notation variant := (KalmanSession.variant P S E).
@@ -39,12 +39,15 @@ Notation variant := (KalmanSession.variant P S E).
 Definition step := KalmanSession.step P X S E D O assign1 solve1 devsol expand fwd_of kf kf.
 
 Definition zb (b : bool) : Z := if b then 1 else 0.
-(* [mode; solved values..; -1; current values..; -1; data column; basis, solved-for values of the expanded solution.., k; ...] *)
+(* [mode; solved values..; -1; current values..; -1; data column; forward (-1 = no expansion call); number of matrices;
+   then per matrix: basis, mode and solved-for values of the expanded solution.., k] *)
 Definition flat_E (e : E) : list Z := match e with (b, s, k) => zb b :: fst s :: snd s ++ [Z.of_nat k] end.
 Definition flat_O (o : option O) : list Z :=
   match o with
   | None => []
-  | Some (s, p, ex, d) => fst s :: snd s ++ [-1] ++ p ++ [-1; d; Z.of_nat (length ex)] ++ concat (map flat_E ex)
+  | Some (s, p, ex, d) =>
+      fst s :: snd s ++ [-1] ++ p ++ [-1; fst d; match snd d with Some f => Z.of_nat f | None => -1 end; Z.of_nat (length ex)]
+      ++ concat (map flat_E ex)
   end.
 Definition flat_shape (v : variant) : list Z :=
   match shape P S E v with (b, a, c) => [zb b; Z.of_nat a; Z.of_nat c] end.
